@@ -138,11 +138,15 @@ fn linear_paths<'a, Sec: UnwindSection<Sl<'a>>>(ctx: &mut Ctx, sec: &Sec, kind: 
         // unwind_info_for_address
         match u {
             Err(gimli::Error::NoUnwindInfoForAddress) => {
-                if !acc.contains(&None) && acc_wrapped.contains(&None) {
+                // an ill-formed (wrapping) FDE that precedes the covering one may be the
+                // one the reader picks; its rows need not contain the address
+                let maybe_first = acc.len() > 1;
+                if maybe_first {
+                    ctx.outcome("unwind:not-found-after-ill-formed-fde");
+                } else if !acc.contains(&None) && (acc_wrapped.contains(&None) || matches!(acc.last(), Some(Some(k)) if covers(&fdes[*k], a, addr) == Cov::Top)) {
                     ctx.fail(&e_unw, "fde-ending-at-top-of-address-space", "covered-address-not-found", format!("{} address {:#x}: NoUnwindInfoForAddress; scan accepts {:?}", case(), a, acc));
                     continue;
-                }
-                if !acc.contains(&None) {
+                } else if !acc.contains(&None) {
                     ctx.fail(&e_unw, "unwind-info", "missing-for-covered-address", format!("{} address {:#x}: NoUnwindInfoForAddress, scan accepts {:?}", case(), a, acc));
                     return;
                 }
